@@ -8,6 +8,7 @@ let run_scenario (sc : scenario) : string =
   | "MC" -> Mc_drv.run sc
   | "MCREF" -> Mc_drv.run_ref sc
   | "SIM" -> Sim_drv.run sc
+  | "HANDOFF" -> Handoff_drv.run sc
   | c -> "UNSUPPORTED " ^ c ^ "\n"
 
 let () =
